@@ -4,6 +4,26 @@
 K = {"name": "TestKnown", "enum": True}
 
 CHECKS = {
+    "C15": {
+        "level": "exploration",
+        "tests": [
+            {"name": "TestC15Cache", "checks": [3000, 10000], "shards": [2, 16], "floor": 0.8},
+            {"name": "TestC15Short", "enum": True},
+            K,
+        ],
+        "assumptions": ["registrations while the cache is off and reads of registered names while the cache is off are outside the domain (the statement's clauses conflict there)",
+                        "content changes always come with a strictly larger timestamp; no claim for loaders without timestamps under auto-reload"],
+    },
+    "C16": {
+        "level": "exploration",
+        "tests": [
+            {"name": "TestC16RoundTrip", "checks": [1500, 8000], "shards": [1, 8], "floor": 0.5},
+            {"name": "TestC16Render", "checks": [1500, 8000], "shards": [2, 16], "floor": 0.7},
+            {"name": "TestC16Files", "checks": [300, 2000], "shards": [1, 8], "floor": 0.5},
+            K,
+        ],
+        "assumptions": ["CompileTime is taken from the clock at compile time and is only compared across serialise/deserialise, never with an expected value"],
+    },
     "C20": {
         "level": "exploration",
         "tests": [
